@@ -208,8 +208,9 @@ pub fn run_c14(tier: Tier) -> i32 {
         Act::Open { t: "alice".into(), v: 2, buy: true, margin: SIZE_S.0, lev: SIZE_S.1, limit: 0 },
         Act::blk(15),
         // make alice on vAMM 0 liquidatable
-        Act::Open { t: "bob".into(), v: 0, buy: false, margin: SIZE_L.0, lev: SIZE_L.1, limit: 0 },
+        Act::Open { t: "bob".into(), v: 0, buy: false, margin: 40 * D, lev: 10 * D, limit: 0 },
         Act::blk(3900),
+        px_at_spot(),
     ];
     let depth = tier.pick(3, 4);
     let mut e = Exp::new("admin states", cfg.clone(), alpha.clone(), vec![seed.clone()], depth);
